@@ -229,9 +229,8 @@ func c06Compare(r *fw.Rec, id string, gm *mgen.Module, m *ir.Module, stage strin
 
 // c06Corpus compares, for every value-producing instruction and terminator of
 // a corpus module LLVM accepts, the type the parser attached with the type the
-// IR library computes from the same operands (equality in both directions and
-// the same spelling: a result type that carries the name of an operand's type
-// definition is another type for every user that prints it).
+// IR library computes from the same operands (equality in both directions; a type
+// that carries a name must have the body of the module's definition of that name).
 func c06Corpus(r *fw.Rec, s corpus.Source) {
 	text, err := s.Text()
 	if err != nil {
@@ -262,11 +261,22 @@ func c06Corpus(r *fw.Rec, s corpus.Source) {
 			r.Violate(fw.Violation{Key: "recompute-panic/" + kind, Input: text, What: fmt.Sprintf("recomputing the type of %s %s (%s) from its operands panics: %s", kind, v.Ident(), where, firstLine(pm))})
 			return
 		}
-		if re.String() != got.String() || !types.Equal(re, got) || !types.Equal(got, re) {
+		if !types.Equal(re, got) || !types.Equal(got, re) {
 			r.Violate(fw.Violation{Key: fmt.Sprintf("parser-ir-disagree/%s/%s", kind, typeShape(got)), Input: text,
 				What:     fmt.Sprintf("%s %s in %s of %s: the parser attached type %s, the IR library computes %s from the same operands", kind, v.Ident(), where, s.ID, got, re),
 				Expected: got.String(), Observed: re.String()})
 			return
+		}
+		// a type that carries a name must be the type of that name (a named
+		// non-struct type is an alias in LLVM, so `%bool` and `i1` may both be
+		// reported; a result type that keeps the name of an operand type of
+		// another shape is another type for every user that prints it)
+		for _, t := range []types.Type{got, re} {
+			if bad := dishonestTypeName(m, t); bad != "" {
+				r.Violate(fw.Violation{Key: fmt.Sprintf("type-name-not-its-definition/%s", kind), Input: text,
+					What: fmt.Sprintf("%s %s in %s of %s has type %s: %s", kind, v.Ident(), where, s.ID, t, bad)})
+				return
+			}
 		}
 		r.Tally("recomputed", "corpus:"+kind)
 		r.Nontrivial(s.ID + "|" + where + "|" + v.Ident())
@@ -284,6 +294,58 @@ func c06Corpus(r *fw.Rec, s corpus.Source) {
 			}
 		}
 	}
+}
+
+// dishonestTypeName reports a named type inside t whose body is not the body
+// of the module's type definition of that name.
+func dishonestTypeName(m *ir.Module, t types.Type) string {
+	defs := map[string]types.Type{}
+	for _, d := range m.TypeDefs {
+		defs[d.Name()] = d
+	}
+	seen := map[types.Type]bool{}
+	var walk func(t types.Type) string
+	walk = func(t types.Type) string {
+		if t == nil || seen[t] {
+			return ""
+		}
+		seen[t] = true
+		if n := t.Name(); n != "" {
+			d, ok := defs[n]
+			if !ok {
+				return fmt.Sprintf("the name %%%s is not defined by the module", n)
+			}
+			if d.LLString() != t.LLString() {
+				return fmt.Sprintf("it is named %%%s, but %%%s is defined as %s and this type is %s", n, n, d.LLString(), t.LLString())
+			}
+			return ""
+		}
+		switch t := t.(type) {
+		case *types.PointerType:
+			return walk(t.ElemType)
+		case *types.VectorType:
+			return walk(t.ElemType)
+		case *types.ArrayType:
+			return walk(t.ElemType)
+		case *types.StructType:
+			for _, f := range t.Fields {
+				if b := walk(f); b != "" {
+					return b
+				}
+			}
+		case *types.FuncType:
+			if b := walk(t.RetType); b != "" {
+				return b
+			}
+			for _, p := range t.Params {
+				if b := walk(p); b != "" {
+					return b
+				}
+			}
+		}
+		return ""
+	}
+	return walk(t)
 }
 
 // --- constant expression grid ---
